@@ -1245,7 +1245,9 @@ def trim_cast_varchar(expression: exp.Expression) -> exp.Expression:
         return expression
 
     return exp.Trim(
-        this=exp.Cast(this=operand, to=exp.DataType(this=exp.DataType.Type.VARCHAR, nested=False, prefix=False))
+        this=exp.Cast(this=operand, to=exp.DataType(this=exp.DataType.Type.VARCHAR, nested=False, prefix=False)),
+        # the characters to trim, if any
+        expression=expression.args.get("expression"),
     )
 
 
